@@ -1035,11 +1035,14 @@ def _m_pop(mod):
 def _m_vis(mod):
     def edit(fn):
         for n in ast.walk(fn):
-            if isinstance(n, ast.If) and "ctx.epub" in norm(n.test):
-                for a in ast.walk(n):
+            if isinstance(n, ast.If) and ("ctx.epub" in norm(n.test) or norm(n.test).endswith("== 'public'")):
+                hit = False
+                for a in [x for b in n.body for x in ast.walk(b)]:
                     if isinstance(a, ast.Attribute) and a.attr == "PUBLIC":
                         a.attr = "PROTECTED"
-                return True
+                        hit = True
+                if hit:
+                    return True
         return False
 
     return mod if replace_in_func(mod, "ASTListener.exitComposition", edit) else None
@@ -1075,6 +1078,9 @@ def _m_split(mod):
     def edit(fn):
         for st in ast.walk(fn):
             if isinstance(st, ast.Assign) and isinstance(st.value, ast.ListComp) and "type_prefix" in norm(st.value):
+                st.value = ast.parse("ctx.type_prefix().getText().split(' ')", mode="eval").body
+                return True
+            if isinstance(st, ast.keyword) and st.arg == "prefixes" and isinstance(st.value, ast.ListComp) and "type_prefix" in norm(st.value):
                 st.value = ast.parse("ctx.type_prefix().getText().split(' ')", mode="eval").body
                 return True
         return False
